@@ -654,6 +654,8 @@ def dw_tables():
         # a small leading unit puts the table unit at a non-zero offset (unit-relative operands must get it added)
         lead = dwtab.CU(version=cu.version, asz=cu.asz)
         lead.add(0x24, [(0x0b, 0x0b, b'\x04', None)], label='lead')
+        if cu.fmt == 64:
+            lead.add(0x34, [(0x02, 0x18, dwtab.expr_block(bytes([0x9a, 0x1d, 0, 0, 0])), None)], label='lead_call_ref')
         u0, ab0, _ = lead.build()
         cu.unit_offset = len(u0)
         unit, ab, offs = cu.build(abbrev_base=len(ab0))
@@ -661,16 +663,16 @@ def dw_tables():
         secs.update(extra or {})
         return oracles.wrap_debug(secs, cu.le, cls=cls, machine=machine)
 
-    def op_table(machine, cls, asz, names):
+    def op_table(machine, cls, asz, names, fmt=32):
         def b():
-            cu = dwtab.CU(version=4, asz=asz)
+            cu = dwtab.CU(version=4, asz=asz, fmt=fmt)
             cu.scope = (0x2e, [(0x03, 0x08, b'fn\0', None), (0x40, 0x18, dwtab.expr_block(bytes([0x9c])), None)])
             n = 0
             for name in names:
                 op = DX.DW_OP_name2opcode[name]
                 if op not in SPEC:
                     continue
-                for k, enc in enumerate(dwtab.op_variants(op, SPEC[op], True, asz)):
+                for k, enc in enumerate(dwtab.op_variants(op, SPEC[op], True, asz, fmt // 8)):
                     if k and op in (0x98, 0x99):
                         continue        # GNU readelf sign-extends the 2/4-byte operand of DW_OP_call2/call4; only plain values
                     cu.add(0x34, [(0x02, 0x18, dwtab.expr_block(enc), None)], label='%s.%d' % (name[6:], k))
@@ -680,6 +682,9 @@ def dw_tables():
     allops = sorted(DX.DW_OP_name2opcode, key=lambda n: DX.DW_OP_name2opcode[n])
     regops = [n for n in allops if re.match(r'DW_OP_b?reg\d+$', n)]
     T.append(('DW_OP/x86-64', '--debug-dump=info', op_table(62, 64, 8, allops), is_die))
+    # the same table in a 64-bit-format unit behind a 32-bit-format one: offset-sized operands change width within one file
+    offops = [n for n in allops if DX.DW_OP_name2opcode[n] in SPEC and 'off' in SPEC[DX.DW_OP_name2opcode[n]]] + ['DW_OP_addr', 'DW_OP_entry_value']
+    T.append(('DW_OP/x86-64-dwarf64', '--debug-dump=info', op_table(62, 64, 8, offops, fmt=64), is_die))
     T.append(('DW_OP/i386-registers', '--debug-dump=info', op_table(3, 32, 4, regops), is_die))
     T.append(('DW_OP/aarch64-registers', '--debug-dump=info', op_table(183, 64, 8, regops), is_die))
     T.append(('DW_OP/arm-registers', '--debug-dump=info', op_table(40, 32, 4, regops), is_die))
